@@ -402,6 +402,67 @@ func runBodies(c *mc.Ctx, r *mc.Result, name string, p *hist.Pool, seedMax, body
 	}
 }
 
+// runFanOrders: a node with more than 50 edges that also has a parameter and a catch-all edge, with
+// two routes through each wildcard edge; the same set registered statics-first, wildcards-first,
+// interleaved and in sorted order must route alike (the edge lookup switches to binary search above
+// 50 children).
+func runFanOrders(c *mc.Ctx, r *mc.Result) {
+	const letters = "0123456789ABCDEFGHIJKLMNOPQRSTUVWXYZabcdefghijklmnopqrstuvwxyz"
+	r.Bounds["fan-orders"] = "49/51/52 static siblings + 2 routes through a parameter edge + 2 through a catch-all edge, under '/' and '/{p}/', in 4 registration orders x 3 option profiles"
+	for _, prefix := range []string{"/", "/{p}/"} {
+		for _, n := range []int{49, 51, 52} {
+			var statics, wild []hist.Key
+			for i := 0; i < n; i++ {
+				statics = append(statics, hist.Key{Method: "GET", Pattern: prefix + string(letters[i])})
+			}
+			for _, w := range []string{"{q}/aa", "*{w}/aa", "{q}/bb", "*{w}/bb"} {
+				wild = append(wild, hist.Key{Method: "GET", Pattern: prefix + w})
+			}
+			m := hist.Model{}
+			for _, k := range append(append([]hist.Key{}, statics...), wild...) {
+				m[k] = 1
+			}
+			reqPrefix := strings.ReplaceAll(prefix, "{p}", "v")
+			var probes []Probe
+			for _, me := range []string{"GET", "POST", "OPTIONS"} {
+				for _, pa := range []string{"0", string(letters[n-1]), string(letters[n]), "zz/aa", "zz/bb", "zz/cc", "zz/y/aa", "zz/y/bb", "zz", "0/aa"} {
+					probes = append(probes, Probe{me, "", reqPrefix + pa})
+				}
+			}
+			inter := append([]hist.Key{}, statics[:n/2]...)
+			inter = append(inter, wild[:2]...)
+			inter = append(inter, statics[n/2:]...)
+			inter = append(inter, wild[2:]...)
+			orders := map[string][]hist.Key{
+				"statics first":   append(append([]hist.Key{}, statics...), wild...),
+				"wildcards first": append(append([]hist.Key{}, wild...), statics...),
+				"interleaved":     inter,
+			}
+			for prof := range profiles {
+				ref := observe(canonical(m, sortedKeys(m), profiles[prof]), probes)
+				for _, name := range []string{"statics first", "wildcards first", "interleaved"} {
+					var f *fox.Router
+					var pv any
+					func() {
+						defer func() { pv = recover() }()
+						f = canonical(m, orders[name], profiles[prof])
+					}()
+					r.Evaluations += int64(len(probes))
+					r.States++
+					r.DistinctNontrivial++
+					if pv != nil {
+						r.Violate("histories", "history-dependent", fmt.Sprintf("registering %d siblings + 4 wildcard routes under %q in the order %q fails: %v", n, prefix, name, pv), Case{Pool: "fan-orders"})
+						continue
+					}
+					if d := diff(observe(f, probes), ref, probes); d != "" {
+						r.Violate("histories", "history-dependent", fmt.Sprintf("two routers holding the same %d siblings + 4 wildcard routes under %q route differently (profile %s, registration order %q vs sorted): %s", n, prefix, profileName(prof), name, d), Case{Pool: "fan-orders"})
+					}
+				}
+			}
+		}
+	}
+}
+
 func run(c *mc.Ctx, r *mc.Result) {
 	// independent sub-runs, each with its own result, run concurrently and merged in a fixed order
 	var jobs []func(r *mc.Result)
@@ -429,6 +490,7 @@ func run(c *mc.Ctx, r *mc.Result) {
 		add(func(r *mc.Result) { runBodies(c, r, "nested", c02.NestPool(), 2, 3) })
 		add(func(r *mc.Result) { runBodies(c, r, "siblings", c02.SiblingPool(), 2, 3) })
 	}
+	add(func(r *mc.Result) { runFanOrders(c, r) })
 	results := make([]*mc.Result, len(jobs))
 	var wg sync.WaitGroup
 	sem := make(chan struct{}, 3)
@@ -453,6 +515,14 @@ func replay(c *mc.Ctx, raw json.RawMessage) string {
 	var cs Case
 	if err := json.Unmarshal(raw, &cs); err != nil {
 		return "bad case"
+	}
+	if cs.Pool == "fan-orders" {
+		rr := mc.NewResult()
+		runFanOrders(c, rr)
+		if len(rr.Violations) > 0 {
+			return rr.Violations[0].Msg
+		}
+		return ""
 	}
 	p := poolByName(cs.Pool, cs.Quick)
 	probes := probesFor(p)
